@@ -1255,8 +1255,9 @@ class ArgumentParser(ParserDeprecations, ActionsContainer, ArgumentLinking, argp
         components = ActionLink.reorder(order, components)
 
         cfg = strip_meta(cfg)
+        instantiated: Dict[str, Any] = {}
         for component in components:
-            ActionLink.apply_instantiation_links(self, cfg, target=component.dest)
+            ActionLink.apply_instantiation_links(self, cfg, target=component.dest, instantiated=instantiated)
             if isinstance(component, ActionTypeHint):
                 try:
                     value, parent, key = cfg.get_value_and_parent(component.dest)
@@ -1270,11 +1271,12 @@ class ArgumentParser(ParserDeprecations, ActionsContainer, ArgumentLinking, argp
                             class_instantiators=self._get_instantiators(),
                         ):
                             parent[key] = component.instantiate_classes(value)
+                            instantiated[component.dest] = parent[key]
             else:
                 with parser_context(load_value_mode=self.parser_mode, class_instantiators=self._get_instantiators()):
                     component.instantiate_class(component, cfg)
 
-        ActionLink.apply_instantiation_links(self, cfg, order=order)
+        ActionLink.apply_instantiation_links(self, cfg, order=order, instantiated=instantiated)
 
         subcommand, subparser = _ActionSubCommands.get_subcommand(self, cfg, fail_no_subcommand=False)
         if subcommand is not None and subparser is not None:
